@@ -7,7 +7,7 @@ from checks import c01
 
 ID = "C02"
 VARIANTS = ["asan"]
-TARGETS = ["ovni-static", "ovniemu"]
+TARGETS = ["ovni-static", "ovniemu", "ovnidump", "ovnisort"]
 LEVEL = "exploration"
 RULE = ("protocol-conformant libovni programs (1-3 threads of one process, turn-based so the global order is "
         "scripted): proc_init, thread_init, require, add_cpu, OHx, then events that are legal under the "
@@ -26,7 +26,8 @@ MAX = rt.MAX_EV_BUF
 
 def setup(ctx):
     b = ctx.b("asan")
-    return {"rtdrv": rt.compile_driver(b), "shim": rt.compile_shim(b)}
+    return {"rtdrv": rt.compile_driver(b), "shim": rt.compile_shim(b),
+            "manythreads": b.compile("manythreads.c", "manythreads", libs="rt")}
 
 
 def models_draw(draw):
@@ -288,8 +289,55 @@ def enum_window(ctx):
             yield {"trace": base, "fill": [[0, 1, "exact-window", delta, pre]]}
 
 
+def enum_many(ctx):
+    yield {"procs": 1, "threads": 1100, "cpus": 4}
+    yield {"procs": 3, "threads": 400, "cpus": 2}
+    if ctx.tier != "quick":
+        yield {"procs": 2, "threads": 1500, "cpus": 7}
+        yield {"procs": 8, "threads": 140, "cpus": 1}
+
+
+def run_many(case, ctx):
+    """More streams than the default open-files limit of a process (1024): a program that
+    follows the protocol with many short-lived threads; the tools run under that limit."""
+    b = ctx.b("asan")
+    d = ctx.newdir()
+    try:
+        tdir = os.path.join(d, "ovni")
+        r = tools.run([ctx.shared["manythreads"], str(case["procs"]), str(case["threads"]), str(case["cpus"])],
+                      cwd=d, env={"OVNI_TRACEDIR": tdir}, cpu_s=120, wall_s=600)
+        if r.kind != "ok":
+            raise Violation("conformant program with %d x %d threads failed: %s" % (case["procs"], case["threads"], r.brief()))
+        n = 0
+        for root, dn, fn in os.walk(tdir):
+            if "stream.obs" not in fn:
+                continue
+            n += 1
+            try:
+                evs = obs.decode_stream(open(os.path.join(root, "stream.obs"), "rb").read())
+            except obs.DecodeError as ex:
+                raise Violation("%s violates the trace specification: %s" % (root, ex))
+            user = [e.mcv for e in evs if e.mcv not in ("OF[", "OF]")]
+            if user != ["OHx", "OB.", "OHe"]:
+                raise Violation("%s holds %s, emitted OHx OB. OHe" % (root, user))
+            meta = json.load(open(os.path.join(root, "stream.json")))
+            if meta.get("ovni", {}).get("finished") != 1:
+                raise Violation("%s: stream.json not marked finished" % root)
+        if n != case["procs"] * case["threads"]:
+            raise Violation("%d streams on disk, %d threads ran" % (n, case["procs"] * case["threads"]))
+        for tool, flags in (("ovniemu", ["-l"]), ("ovnidump", []), ("ovnisort", [])):
+            r = tools.run([b.tool(tool)] + flags + [tdir], cpu_s=120, wall_s=600, nofile=1024)
+            if r.kind != "ok":
+                raise Violation("%s rejects the %d-stream trace of a conformant program under the default "
+                                "open-files limit (1024): %s" % (tool, n, r.brief()))
+    finally:
+        ctx.rmdir(d)
+    return {"nt": True, "cls": ["many-streams"], "key": json.dumps(case)}
+
+
 def parts(tier):
     return [Part("jumbo-window-sweep", run, enum=enum_window),
+            Part("many-threads", run_many, enum=enum_many),
             Part("programs", run, strategy=lambda ctx: programs(), budget={"quick": 2500, "thorough": 40000}),
             Part("concurrent-programs", run_concurrent, strategy=lambda ctx: concurrent(), budget={"quick": 120, "thorough": 2500},
                  replay_any=20)]
